@@ -49,9 +49,17 @@ Print Assumptions C01_sum.
 
 Theorem C01_average : forall e rows,
   acc_emit (fold_left acc_step rows (acc_empty (FAvg e))) =
-  Ok (from_float (fdiv (fold_left fadd (numeric_args e rows) f_zero)
-                       (f_of_Z (Z.of_nat (length (numeric_args e rows)))))).
-Proof. intros. cbn [acc_empty]. rewrite avg_fold. reflexivity. Qed.
+  Ok (match numeric_args e rows with
+      | [] => VNone          (* no numeric value: None, not 0/0 *)
+      | _ :: _ => from_float (fdiv (fold_left fadd (numeric_args e rows) f_zero)
+                                   (f_of_Z (Z.of_nat (length (numeric_args e rows)))))
+      end).
+Proof.
+  intros. cbn [acc_empty]. rewrite avg_fold. cbn [acc_emit]. rewrite Z.add_0_l.
+  destruct (numeric_args e rows) as [|x l]; [reflexivity|].
+  replace (Z.of_nat (length (x :: l)) =? 0) with false; [reflexivity|].
+  symmetry. apply Z.eqb_neq. cbn [length]. lia.
+Qed.
 Print Assumptions C01_average.
 
 (** min / max (fix b2f85e2): the integer arguments (an integer, or text holding one: [int_args]) are
